@@ -144,6 +144,31 @@ func c10CancelScenarios(tier string) []*Scenario {
 			})
 		}
 	}
+	// a cancellation that lands while a slow fallback function runs does not change what that function sees
+	// as the execution's last result
+	for _, c := range []struct {
+		name  string
+		stack []Spec
+		es    ExeSpec
+	}{
+		{"timeout-during-fallback", []Spec{{Kind: KTimeout, Limit: 20}, {Kind: KFallback, FbV: 9, FbDur: 40}}, ExeSpec{Script: []Out{{V: 3, Err: E1, Dur: 10}}}},
+		{"async-cancel-during-fallback", []Spec{{Kind: KFallback, FbV: 9, FbDur: 40}}, ExeSpec{Script: []Out{{V: 3, Err: E1, Dur: 10}}, Async: true, CancelAsync: true, CancelAt: 20}},
+		{"ctx-cancel-during-fallback", []Spec{{Kind: KFallback, FbV: 9, FbDur: 40}}, ExeSpec{Script: []Out{{V: 3, Err: E1, Dur: 10}}, Ctx: "cancel", CancelAt: 20}},
+	} {
+		c := c
+		out = append(out, &Scenario{
+			Name:  fmt.Sprintf("C10/cancel/%s [%s] %s", c.name, stackStr(c.stack), c.es.String()),
+			Bound: 2, Reduce: true,
+			Body: multiBody(c.stack, []ExeSpec{c.es}, MultiOpts{Reduce: true, Grace: 100, Final: func(env *Env) string {
+				for _, e := range env.Events {
+					if (e.Name == "fbcall" || e.Name == "fbexit") && (e.LastV != 3 || e.LastE != E1) {
+						return fmt.Sprintf("the fallback function saw last result (%d,%v) at %s; the failure it handles is (3,E1)", e.LastV, e.LastE, map[string]string{"fbcall": "entry", "fbexit": "exit, after the cancellation"}[e.Name])
+					}
+				}
+				return ""
+			}}),
+		})
+	}
 	return out
 }
 
@@ -294,11 +319,41 @@ func sortedMap(m map[string]int) string {
 	return s + "}"
 }
 
+// deepResultUnit runs the C12 result-type cases (result conditions registered for a value that is
+// deep-equal to, never identical with, the outcome: pointers, structs / arrays / interfaces holding
+// pointers, slices, maps) and reports the failures of one policy kind under property prop.
+func deepResultUnit(prop, policyPrefix string) Unit {
+	deep := c12DeepCases()
+	return Unit{Name: prop + "/result conditions on result types holding pointers", Run: func(dl time.Time) *Stats {
+		st := &Stats{BoundCompleted: 0, outcomes: map[string]int{}}
+		for _, d := range deep {
+			var msgs []string
+			r := vrt.Execute(vrt.Options{}, func() { msgs = d.run() })
+			st.Executions++
+			st.Steps += r.Steps
+			if r.Panic != "" {
+				msgs = []string{"panic: " + r.Panic}
+			}
+			for _, msg := range msgs {
+				if strings.HasPrefix(msg, policyPrefix) || strings.HasPrefix(msg, "panic") {
+					v := Violation{Scenario: "C12/deep/" + d.name, Message: msg}
+					v.Sig = signature(v.Scenario, msg)
+					st.Violations = append(st.Violations, v)
+					break
+				}
+			}
+		}
+		st.Sample = []string{"result types: *struct, struct holding a pointer, any holding a pointer, array of pointers, slice, map, string, struct of scalars"}
+		st.Outcomes, st.Nontrivial = st.Executions, st.Executions
+		return st
+	}}
+}
+
 // ---- C02 ----
 
 func c02Programs(tier string) []*Program {
 	var progs []*Program
-	handles := [][]Cond{nil, {{K: "errs", E: E1}}, {{K: "result", V: 0}}, {pred13}}
+	handles := [][]Cond{nil, {{K: "errs", E: E1}}, {{K: "result", V: 0}}, {pred13}, {{K: "errs", E: E1}, {K: "result", V: 0}}}
 	aborts := [][]Cond{nil, {{K: "errs", E: E2}}, {{K: "result", V: 0}}, {pred13}, {{K: "errs", E: E2, Es: []error{E3}}}}
 	maxLen := 4
 	if tier == "thorough" {
@@ -339,6 +394,17 @@ func c02Programs(tier string) []*Program {
 			for _, rl := range []bool{false, true} {
 				r := Spec{Kind: KRetry, MaxRetries: 3, MaxDuration: M, Delay: delay, ReturnLast: rl}
 				progs = append(progs, &Program{Stack: []Spec{r}, Scripts: [][]Out{{{Err: E1, Dur: d}}, {{Err: E1, Dur: d}, {V: 1, Dur: d}}}, Checks: "layers,events,stats"})
+				if d+delay > 0 {
+					// unlimited retries: the max duration is the only thing that ends them (the script succeeds
+					// after 40 failures, long after the max duration, so that every program terminates)
+					var long []Out
+					for i := 0; i < 40; i++ {
+						long = append(long, Out{Err: E1, Dur: d})
+					}
+					long = append(long, Out{V: 1})
+					u := Spec{Kind: KRetry, MaxRetries: -1, MaxDuration: M, Delay: delay, ReturnLast: rl}
+					progs = append(progs, &Program{Stack: []Spec{u}, Scripts: [][]Out{long}, Checks: "layers,events,stats"})
+				}
 			}
 		}
 	}
@@ -354,7 +420,12 @@ func c02SharingScenarios(tier string) []*Scenario {
 		bound = 3
 	}
 	var out []*Scenario
+	sharedExecutor := false
 	add := func(name string, r Spec, exes []ExeSpec) {
+		sharedEx := sharedExecutor
+		if sharedEx {
+			name += "/one-executor"
+		}
 		type pred struct {
 			v    int
 			e    error
@@ -368,7 +439,7 @@ func c02SharingScenarios(tier string) []*Scenario {
 		out = append(out, &Scenario{
 			Name:  fmt.Sprintf("C02/sharing/%s [%s] %s", name, r.String(), exesStr(exes)),
 			Bound: bound, Reduce: true,
-			Body: multiBody([]Spec{r}, exes, MultiOpts{Reduce: true, Final: func(env *Env) string {
+			Body: multiBody([]Spec{r}, exes, MultiOpts{Reduce: true, SharedExecutor: sharedEx, Final: func(env *Env) string {
 				for i, x := range env.Exes {
 					w := want[i]
 					if len(x.Invs) != w.invs {
@@ -394,6 +465,17 @@ func c02SharingScenarios(tier string) []*Scenario {
 		}
 	}
 	add("three", Spec{Kind: KRetry, MaxRetries: 1, Delay: 10}, []ExeSpec{{Script: failing}, {Script: failOnce}, {Script: failing, StartAt: 5}})
+	// the same Executor value for all executions (not only the same policy instances)
+	sharedExecutor = true
+	slowFailing := []Out{{Err: E1, Dur: 10}}
+	for _, mr := range []int{1, 2} {
+		r := Spec{Kind: KRetry, MaxRetries: mr}
+		add("two-failing", r, []ExeSpec{{Script: failing}, {Script: failing}})
+		add("failing+recovering", r, []ExeSpec{{Script: slowFailing}, {Script: failOnce, StartAt: 5}})
+		add("overlapping", r, []ExeSpec{{Script: slowFailing}, {Script: failing, StartAt: 5}, {Script: failOnce, StartAt: 200}})
+		add("async", r, []ExeSpec{{Script: slowFailing, Async: true}, {Script: failOnce, StartAt: 5}})
+	}
+	sharedExecutor = false
 	add("returnlast", Spec{Kind: KRetry, MaxRetries: 1, ReturnLast: true}, []ExeSpec{{Script: failing}, {Script: failing}})
 	return out
 }
@@ -420,6 +502,7 @@ func init() {
 			for _, sc := range c10CancelScenarios(tier) {
 				us = append(us, scenarioUnit(sc))
 			}
+			us = append(us, deepResultUnit("C10", "fallback"))
 			return us
 		},
 	})
@@ -441,7 +524,7 @@ func init() {
 	register(&CheckDef{
 		Property:  "C02",
 		Technique: "exhaustive enumeration of retry configurations and outcome scripts executed on the real retry policy, checked against the retry layer contract; plus schedule exploration of executions sharing one policy instance",
-		Rule: "a program = maxRetries {-1,0,1,2,3} (both spellings) x handle conditions (4) x abort conditions (5) x ReturnLastFailure x every script over {ok(1), ok(0), err(E1), err(E2)} up to length 4 (thorough 5), run twice on one instance, plus max-duration programs with attempts of 0, M/2, M, M+1; " +
+		Rule: "a program = maxRetries {-1,0,1,2,3} (both spellings) x handle conditions (5, one combining an error and a result condition) x abort conditions (5) x ReturnLastFailure x every script over {ok(1), ok(0), err(E1), err(E2)} up to length 4 (thorough 5), run twice on one instance, plus max-duration programs with attempts of 0, M/2, M, M+1, with 3 and with unlimited retries; " +
 			"sharing: 2-3 concurrent / successive / async executions through one instance, every schedule within the deviation bound; HandleResult / AbortOnResult on 8 result types (pointers, structs / arrays / interfaces holding pointers, slices, maps) with deep-equal but not identical values; distinct = distinct observation logs",
 		Assume: []string{"elapsed == maxDuration exactly is not pinned by the statement: both readings accepted", "an abort-matching failure on the exhausting attempt may follow either story"},
 		Budget: map[string]time.Duration{"quick": 120 * time.Second},
@@ -450,28 +533,7 @@ func init() {
 			for _, sc := range c02SharingScenarios(tier) {
 				us = append(us, scenarioUnit(sc))
 			}
-			// HandleResult / AbortOnResult on result types that hold pointers (deep-equal, never identical values)
-			deep := c12DeepCases()
-			us = append(us, Unit{Name: "C02/result conditions on result types holding pointers", Run: func(dl time.Time) *Stats {
-				st := &Stats{BoundCompleted: 0, outcomes: map[string]int{}}
-				for _, d := range deep {
-					var msg string
-					r := vrt.Execute(vrt.Options{}, func() { msg = d.run() })
-					st.Executions++
-					st.Steps += r.Steps
-					if r.Panic != "" {
-						msg = "panic: " + r.Panic
-					}
-					if msg != "" && (strings.HasPrefix(msg, "retry policy") || strings.HasPrefix(msg, "panic")) {
-						v := Violation{Scenario: "C12/deep/" + d.name, Message: msg}
-						v.Sig = signature(v.Scenario, msg)
-						st.Violations = append(st.Violations, v)
-					}
-				}
-				st.Sample = []string{"result types: *struct, struct holding a pointer, any holding a pointer, array of pointers, slice, map, string, struct of scalars"}
-				st.Outcomes, st.Nontrivial = st.Executions, st.Executions
-				return st
-			}})
+			us = append(us, deepResultUnit("C02", "retry policy"))
 			return us
 		},
 	})
